@@ -183,6 +183,7 @@ class Checker:
                     for k in self.known_hits],
                 'observations': self.observations[:40],
                 'incomplete': self.incomplete,
+                'violation_keys': sorted({v['key'] for v in self.violations}),
                 'functions_equivalent_to_reference_modulo_normal_form': getattr(self.repo, 'equivalent', {}),
                 'locals_renamed_to_reference': {k: v for k, v in getattr(self.repo, 'renames', {}).items()},
                 'new_private_helpers_inlined': getattr(self.repo, 'inlined', {}),
